@@ -77,7 +77,48 @@ def classes():
                 self.value = self.d.get()
             self.q.put(self.value)
 
-    _CLS.update(Box=Box, PutReg=PutReg)
+    class DoublePrepare(py4hw.Logic):
+        """user-style behavioural block in the "default then override" idiom: prepares its output twice in one clock(),
+        the second time with a raw value outside the wire's range (negative or oversized)."""
+
+        def __init__(self, parent, name, a, r, mode=0):
+            super().__init__(parent, name)
+            self.a = self.addIn('a', a)
+            self.r = self.addOut('r', r)
+            self.mode = mode
+            self.count = 0
+
+        def clock(self):
+            v = self.a.get()
+            self.count += 1
+            self.r.prepare(v)
+            if self.mode == 0:
+                if v & 1:
+                    self.r.prepare(-v - 1)
+            elif self.mode == 1:
+                self.r.prepare((v << self.r.getWidth()) + 5)
+            else:
+                if self.count % 3 == 0:
+                    self.r.prepare(v - (1 << (self.r.getWidth() + 2)))
+
+    class DoublePut(py4hw.Logic):
+        """combinational twin: two puts in one propagate(), the last one out of range"""
+
+        def __init__(self, parent, name, a, r, mode=0):
+            super().__init__(parent, name)
+            self.a = self.addIn('a', a)
+            self.r = self.addOut('r', r)
+            self.mode = mode
+
+        def propagate(self):
+            v = self.a.get()
+            self.r.put(0)
+            if self.mode == 0:
+                self.r.put(~v)
+            else:
+                self.r.put((v + 1) << self.r.getWidth())
+
+    _CLS.update(Box=Box, PutReg=PutReg, DoublePrepare=DoublePrepare, DoublePut=DoublePut)
     return _CLS
 
 
@@ -196,6 +237,10 @@ NATIVE = {
                       lambda p, par, n, a, k, s: p.logic.simulation.StreamCapture(par, n, a['x'])),
     'BidirBuf': (('pout', 'poe'), ('pin',), False, True,
                  lambda p, par, n, a, k, s: p.BidirBuf(par, n, a['pin'], a['pout'], a['poe'], a['bidir'])),
+    'DoublePrepare': (('a',), ('r',), True, False,
+                      lambda p, par, n, a, k, s: classes()['DoublePrepare'](par, n, a['a'], a['r'], mode=k.get('mode', 0))),
+    'DoublePut': (('a',), ('r',), False, True,
+                  lambda p, par, n, a, k, s: classes()['DoublePut'](par, n, a['a'], a['r'], mode=k.get('mode', 0))),
     'Waveform': (('w0', 'w1', 'w2', 'w3'), (), True, False,
                  lambda p, par, n, a, k, s: p.Waveform(par, n, [a[x] for x in ('w0', 'w1', 'w2', 'w3') if a.get(x) is not None])),
     'EdgeDetector': (('a',), ('r',), True, True,
